@@ -406,6 +406,42 @@ class Interp:
             raise Unsupported("store target %r at %s" % (dst, self.where(st, ms)))
         self.trace.append(Op("SliceAssign", dst=dst, src=src, aug=aug, where=self.where(st, ms),
                              stack=tuple(self.call_stack), node=st))
+        self.update_content(dst, src, aug)
+
+    def update_content(self, dst, src, aug):
+        """keep the closed form of an array current across numpy-level whole-array assignments"""
+        from .extlib import arr_valfn, broadcast_shapes
+        al = dst.alloc
+        if not dst.is_full():
+            if al.valfn is not None:
+                al.valfn = None
+                al.valfn_lost = True
+            return
+        old = arr_valfn(dst) if al.valfn is not None else None
+        new = None
+        if isinstance(src, Arr):
+            f = arr_valfn(src)
+            if f is not None:
+                ssh, dsh = src.shape, dst.shape
+                pad = len(dsh) - len(ssh)
+                if pad >= 0:
+                    def new(idx, f=f, ssh=ssh, pad=pad):
+                        sub = [pconst(0) if (is_num(simplify_scalar(d)) and simplify_scalar(d) == 1) else i for i, d in zip(idx[pad:], ssh)]
+                        return f(tuple(sub))
+        elif is_scalar(src):
+            v = to_pw(src)
+            new = lambda idx, v=v: v
+        if aug is not None:
+            if old is None or new is None:
+                al.valfn = None
+                return
+            opn = {"Add": "add", "Sub": "sub", "Mult": "mul", "Div": "div"}.get(aug)
+            if opn is None:
+                al.valfn = None
+                return
+            rhs = new
+            new = lambda idx, old=old, rhs=rhs, opn=opn: self.ext.scalar_op(opn, [old(idx), rhs(idx)])
+        al.valfn = new
 
     def st_If(self, st, scope, ms):
         c = self.truth(self.eval(st.test, scope, ms), st, ms)
@@ -451,6 +487,16 @@ class Interp:
             seq = list(it)
         elif isinstance(it, dict):
             seq = list(it.keys())
+        elif isinstance(it, Opaque) and it.tag == "symrange" and isinstance(st.target, ast.Name):
+            # loop over a symbolic count: analyse one generic iteration (the body is the same for every index)
+            from .extlib import ExtLib
+            var = "%s_iter" % st.target.id
+            ExtLib.INT_SYMBOLS.add(var)
+            self.trace.append(Op("LoopBegin", var=var, range=it.info, where=self.where(st, ms), stack=tuple(self.call_stack)))
+            scope.vars[st.target.id] = psym(var)
+            self.exec_block(st.body, scope, ms)
+            self.trace.append(Op("LoopEnd", var=var, where=self.where(st, ms)))
+            return
         else:
             raise Unsupported("for over %r at %s" % (it, self.where(st, ms)))
         for x in seq:
@@ -795,7 +841,12 @@ class Interp:
             if name == "MatMult":
                 return self.ext.matmul(a, b, e, ms)
             return self.ext.elementwise(name, [a, b], e, ms)
-        from .extlib import MinMax, MinMaxScaled
+        from .extlib import MinMax, MinMaxScaled, SumAll
+        if isinstance(a, SumAll) or isinstance(b, SumAll):
+            sa_, other = (a, b) if isinstance(a, SumAll) else (b, a)
+            if name == "Mult" and is_scalar(other):
+                return sa_ * other
+            raise Unsupported("operator %s on a grid sum at %s" % (name, self.where(e, ms)))
         if isinstance(a, (MinMax, MinMaxScaled)) or isinstance(b, (MinMax, MinMaxScaled)):
             mm, other = (a, b) if isinstance(a, (MinMax, MinMaxScaled)) else (b, a)
             if name == "Mult" and is_scalar(other):
@@ -914,7 +965,7 @@ class Interp:
         for op, rn in zip(e.ops, e.comparators):
             right = self.eval(rn, scope, ms)
             r = self.compare(op, left, right, e, ms)
-            if isinstance(r, Cond):
+            if isinstance(r, (Cond, Arr)):
                 if len(e.ops) != 1:
                     raise Unsupported("chained symbolic comparison")
                 return r
@@ -1334,6 +1385,8 @@ class Interp:
         return None
 
     def call_njit(self, nj, args, kwargs, node, ms):
+        if getattr(self, "inline_njit", False):
+            return self.call_func(nj.fn, args, kwargs, node, ms)
         b = self.bind_args(nj.fn, args, kwargs, node, ms)
         self.trace.append(Op("NumbaCall", fn=nj, args=b, where=self.where(node, ms),
                              stack=tuple(self.call_stack), node=node))
